@@ -1,6 +1,7 @@
 import PyomaVerif.Lemmas.FreeVib
 import PyomaVerif.Lemmas.MsExtract
 import PyomaVerif.Props.C03
+import PyomaVerif.Model.MultiSetup
 /-!
 # Helpers for `Props/C03E2E.lean` — from the per-setup free-vibration records to `Obs_all`
 
@@ -23,30 +24,8 @@ set_option linter.unusedSectionVars false
 namespace PV.MsFreeVib
 open PV PV.Mat PV.Cov PV.FreeVib PV.Multi Matrix Finset
 
-/-! ## model composition -/
-section model
-variable {K : Type}
-
-/-- `Obs[rows, :]` (fancy indexing with an index array) -/
-def selRows (O : Mat K) (rows : List ℕ) : Mat K := ⟨rows.length, O.c, fun i j => O.e (rows.getD i 0) j⟩
-
-/-- `O_ref = Obs[ref_id, :]` of a setup with `nm` roving sensors -/
-def oRef (br nref nm : ℕ) (Obs : Mat K) : Mat K := selRows Obs (refRows br nref nm)
-/-- `O_mov = Obs[mov_id, :]` -/
-def oMov (br nref nm : ℕ) (Obs : Mat K) : Mat K := selRows Obs (movRows br nref nm)
-
-/-- `Obs_all` of `SSI_multi_setup`: `Ob kk` the per-setup factor `U1[:, :ordmax]·S1rad[:ordmax, :ordmax]`,
-    `P kk` the recorded `pinv(O_ref)` of setup `kk`; `O1_ref` is the reference part of setup 0; row `r` is
-    copied from the source `allRows[r]` (the `id1/id2` loop). -/
-def msObsAll [Zero K] [Add K] [Mul K] (br N nref : ℕ) (nmov : List ℕ) (Ob P : ℕ → Mat K) : Mat K :=
-  ⟨br * (nref + nmov.sum), N, fun r j =>
-    match (allRows br nref nmov)[r]? with
-    | some (.ref q) => (oRef br nref (nmov.getD 0 0) (Ob 0)).e q j
-    | some (.mov jj q) =>
-        (rebase (oMov br nref (nmov.getD jj 0) (Ob jj)) (P jj) (oRef br nref (nmov.getD 0 0) (Ob 0))).e q j
-    | none => 0⟩
-
-end model
+/-! ## model composition: `selRows`, `oRef`, `oMov`, `msObsAll` now live in `Model/MultiSetup.lean` (same namespace, same
+    text) so that the compiled driver runs them inside `ssiMultiSetup`. -/
 
 section general
 variable {K : Type} [Field K]
